@@ -7,6 +7,7 @@ import (
 	"errors"
 	"fmt"
 	"io"
+	"path"
 	"sort"
 	"strings"
 	"sync"
@@ -60,6 +61,13 @@ var Deviants = []string{
 	"Stat:name-full-path", "FileStat:name-full-path", "WriteAt:gap-garbage", "ReadDir:all-twice",
 	// (the same on a file system that lists correctly by name: only the handle's complete listing is wrong)
 	"FSReadDir:handle-lists-all-twice",
+	// the error names the right file in another spelling ("foo/", "./foo"): not the name the caller passed
+	"Mkdir:errpath-trailing-slash", "OpenFile:errpath-trailing-slash", "Open:errpath-trailing-slash", "Remove:errpath-trailing-slash", "Stat:errpath-trailing-slash", "Rename:errpath-trailing-slash", "Chmod:errpath-trailing-slash",
+	"Mkdir:errpath-dot-slash", "OpenFile:errpath-dot-slash", "Open:errpath-dot-slash", "Remove:errpath-dot-slash", "Stat:errpath-dot-slash", "Rename:errpath-dot-slash",
+	// a file system that lists correctly by name, while the entries its directory HANDLES return say "not a directory" of
+	// sub-directories (their Info() is right); a removed name that stays in its parent's listing as an entry whose
+	// Info() answers "does not exist"
+	"FSReadDir:handle-entries-deny-isdir", "Remove:leaves-ghost-entry", "FSReadDir:remove-leaves-ghost-entry",
 	"Rename:fails-eopnotsupp", "Rename:cross-dir-fails-enotsup", "Mkdir:fails-eopnotsupp", "MkdirAll:fails-enotsup", "Remove:fails-eopnotsupp", "Chmod:fails-enotsup", "Chtimes:fails-eopnotsupp", "OpenFile:create-fails-eopnotsupp",
 }
 
@@ -84,6 +92,43 @@ type DevFS struct {
 	// Prefixed: error paths carry the outer prefix "/mnt/root/" (the suite then runs with AllowErrPathPrefix)
 	Prefixed bool
 	twice    sync.Map // directory -> base name that this directory lists twice (…-listed-twice-in-subdir)
+	ghostMu  sync.Mutex
+	ghosts   map[string][]string // directory -> names removed from it that its listing still shows (…leaves-ghost-entry)
+}
+
+// ghostEntry is a listed name that is not there: Info() says so.
+type ghostEntry struct{ name string }
+
+func (g ghostEntry) Name() string             { return g.name }
+func (g ghostEntry) IsDir() bool              { return false }
+func (g ghostEntry) Type() hackpadfs.FileMode { return 0 }
+func (g ghostEntry) Info() (hackpadfs.FileInfo, error) {
+	return nil, &hackpadfs.PathError{Op: "stat", Path: g.name, Err: hackpadfs.ErrNotExist}
+}
+
+func (d *DevFS) leavesGhosts() bool {
+	return d.is("Remove:leaves-ghost-entry") || d.is("FSReadDir:remove-leaves-ghost-entry")
+}
+
+// withGhosts adds the removed names of dir that have not been created again since.
+func (d *DevFS) withGhosts(dir string, entries []hackpadfs.DirEntry) []hackpadfs.DirEntry {
+	if !d.leavesGhosts() {
+		return entries
+	}
+	d.ghostMu.Lock()
+	defer d.ghostMu.Unlock()
+	for _, g := range d.ghosts[path.Clean(dir)] {
+		present := false
+		for _, e := range entries {
+			present = present || e.Name() == g
+		}
+		if _, err := d.inner.Stat(path.Join(dir, g)); err == nil || present {
+			continue
+		}
+		d.fire()
+		entries = append(entries, ghostEntry{g})
+	}
+	return entries
 }
 
 // DevFSRD is a DevFS that also lists directories by name (ReadDirFS); used for the "FSReadDir:" deviants and their baseline.
@@ -106,6 +151,7 @@ func (d DevFSRD) ReadDir(name string) ([]hackpadfs.DirEntry, error) {
 	if err != nil {
 		return nil, err
 	}
+	entries = d.withGhosts(name, entries)
 	sort.Slice(entries, func(i, j int) bool { return entries[i].Name() < entries[j].Name() })
 	switch {
 	case d.is("FSReadDir:unclean-root-names") && name == ".", d.is("FSReadDir:unclean-subdir-names") && name != ".":
@@ -225,6 +271,21 @@ func (d *DevFS) errDev(op string, err error) error {
 		case *hackpadfs.LinkError:
 			d.fire()
 			return &hackpadfs.LinkError{Op: e.Op, Old: "inner/" + e.Old, New: e.New, Err: e.Err}
+		}
+	case op + ":errpath-trailing-slash", op + ":errpath-dot-slash":
+		respell := func(p string) string {
+			if strings.HasSuffix(d.Dev, "trailing-slash") {
+				return p + "/"
+			}
+			return "./" + p
+		}
+		switch e := err.(type) {
+		case *hackpadfs.PathError:
+			d.fire()
+			return &hackpadfs.PathError{Op: e.Op, Path: respell(e.Path), Err: e.Err}
+		case *hackpadfs.LinkError:
+			d.fire()
+			return &hackpadfs.LinkError{Op: e.Op, Old: respell(e.Old), New: respell(e.New), Err: e.Err}
 		}
 	case op + ":wrong-errop":
 		switch e := err.(type) {
@@ -393,7 +454,17 @@ func (d *DevFS) Remove(name string) error {
 			return nil
 		}
 	}
-	return d.errDev("Remove", d.inner.Remove(name))
+	err := d.inner.Remove(name)
+	if err == nil && d.leavesGhosts() {
+		d.ghostMu.Lock()
+		if d.ghosts == nil {
+			d.ghosts = map[string][]string{}
+		}
+		dir := path.Dir(path.Clean(name))
+		d.ghosts[dir] = append(d.ghosts[dir], path.Base(name))
+		d.ghostMu.Unlock()
+	}
+	return d.errDev("Remove", err)
 }
 
 // probeRemovable reports the error a real Remove would give, without removing.
@@ -695,7 +766,19 @@ func (f *devFile) ReadDir(n int) ([]hackpadfs.DirEntry, error) {
 		n = -1
 	}
 	entries, err := hackpadfs.ReadDirFile(f.f, n)
+	if f.pages == 1 && (err == nil || err == io.EOF) {
+		if with := d.withGhosts(f.name, entries); len(with) > len(entries) {
+			entries, err = with, nil
+		}
+	}
 	switch {
+	case d.is("FSReadDir:handle-entries-deny-isdir"):
+		for i, e := range entries {
+			if e.IsDir() {
+				d.fire()
+				entries[i] = flippedEntry{e}
+			}
+		}
 	case d.is("ReadDir:missing-entry") && len(entries) > 1:
 		d.fire()
 		sort.Slice(entries, func(i, j int) bool { return entries[i].Name() < entries[j].Name() })
